@@ -50,6 +50,11 @@ const std::string *strLib();
 int strIn(const std::string &s);
 void strOut(std::string &s, int n);
 void strInout(std::string &s);
+int strPtrIn(const std::string *s);
+int strValIn(std::string s);
+const char *charRetLen(int n);
+const char *charRetNull(int n);
+void vecIotaD(std::vector<double> &v);
 void charOut(char *dest, const char *src);
 const char *charRet(int n);
 void charInout(char *s);
